@@ -1223,7 +1223,18 @@ impl Analyzable for ParamDef {
 
 impl Analyzable for ParameterList {
     fn analyze(&mut self, parent: Option<Rc<Scope>>) -> AnalyzeReport {
-        self.parameters.analyze(parent)
+        // names are lower-cased when lowered, so that's how they have to be unique
+        let mut seen = std::collections::HashSet::new();
+
+        let duplicates = self
+            .parameters
+            .iter()
+            .filter(|x| !seen.insert(x.name.value.to_lowercase()))
+            .map(|x| Error::DuplicateDefinition(x.name.value.clone()))
+            .map(AnalyzeReport::from)
+            .fold(AnalyzeReport::default(), |acc, x| acc + x);
+
+        duplicates + self.parameters.analyze(parent)
     }
 
     fn is_resolved(&self) -> bool {
